@@ -39,8 +39,9 @@ class Factory:
 
     NAMES = ["cer", "cea", "dwr", "dwa", "dpr", "dpa"]
     BASE_VARIANTS = ["ok", "wronghost", "wrongrealm", "nohost", "pflag"]
-    EXTRA = {"cer": ["exploit", "twoips", "novendor", "nonutf8", "v257", "twostate"],
-             "cea": ["norc", "rcflags", "exploit", "nonutf8"],
+    EXTRA = {"cer": ["exploit", "twoips", "novendor", "nonutf8", "v257", "twostate", "wronghost-state", "wrongrealm-state", "nohost-state",
+                     "wronghost-extra"],
+             "cea": ["norc", "rcflags", "exploit", "nonutf8", "wronghost-state", "wrongrealm-state", "wronghost-extra"],
              "dwr": ["twostate", "nonutf8"], "dwa": ["norc", "twostate"],
              "dpr": ["busy", "nonutf8"], "dpa": ["norc"]}
     APP = ["req-host-local", "req-host-other", "req-realm-local", "req-realm-other", "req-none", "req-both-other-realm-local", "ans"]
@@ -91,6 +92,16 @@ class Factory:
             elif var == "exploit":
                 # an impostor makes the count of recognised AVPs add up with a second Host-IP-Address
                 avps = [OriginHostAVP("evil.example") if code(a) == 264 else a for a in avps] + [HostIpAddressAVP("10.6.6.6")]
+            elif var == "wronghost-state":
+                # an impostor adds an optional AVP the validation recognises
+                avps = [OriginHostAVP("evil.example") if code(a) == 264 else a for a in avps] + [OriginStateIdAVP(7)]
+            elif var == "wrongrealm-state":
+                avps = [OriginRealmAVP("evil.realm") if code(a) == 296 else a for a in avps] + [OriginStateIdAVP(7)]
+            elif var == "nohost-state":
+                avps = [a for a in avps if code(a) != 264] + [OriginStateIdAVP(7)]
+            elif var == "wronghost-extra":
+                # ... or repeats every kind of AVP a capabilities exchange may carry
+                avps = [OriginHostAVP("evil.example") if code(a) == 264 else a for a in avps] + [copy.deepcopy(a) for a in avps if code(a) != 264]
             elif var == "twoips":
                 avps = avps + [HostIpAddressAVP("10.1.1.1")]
             elif var == "novendor":
